@@ -210,6 +210,10 @@ VARIANTS = [
     V("groups without a valid member masked only when NaN is not skipped", ("C18", "C01"), "R-NOVALID", "aggregate_flox.py", '    novalid = actual_sizes < 0\n    if np.any(novalid):\n', '    novalid = actual_sizes < 0\n    if not skipna and np.any(novalid):\n', must_mention="neighbour"),
     V("twin: no-valid mask applied without the any() shortcut", ("C18", "C01"), "", "aggregate_flox.py", '    novalid = actual_sizes < 0\n    if np.any(novalid):\n        result[..., novalid] = np.nan\n', '    result[..., actual_sizes < 0] = np.nan\n', expect="silent"),
     V("variance shift promotes against a bare Python int", ("C20", "C01"), "R-VARSHIFT[width]", "aggregate_npg.py", '    dtype = np.float64 if array.dtype.kind in "iub" else array.dtype', '    dtype = np.result_type(array.dtype, -1)', must_mention="u1"),
+    V("numbagg arg-reduction refusal narrowed to lazy labels", ("C06", "C19"), "R-ENGINEFILL", "core.py", '    if engine == "numbagg" and _is_arg_reduction(func) and (any_by_dask or is_duck_dask_array(array)):', '    if engine == "numbagg" and _is_arg_reduction(func) and any_by_dask:', must_mention="chunked"),
+    V("twin: numbagg arg-reduction refusal with its disjuncts swapped", ("C06", "C19"), "", "core.py", '    if engine == "numbagg" and _is_arg_reduction(func) and (any_by_dask or is_duck_dask_array(array)):', '    if _is_arg_reduction(func) and engine == "numbagg" and (is_duck_dask_array(array) or any_by_dask):', expect="silent"),
+    V("blueprint getter builds its value incrementally in self", ("C13",), "R-GETTER", "aggregations.py", '    @cached_property\n    def new_dims(self) -> tuple[Dim]:\n        return self.new_dims_func(**self.finalize_kwargs)\n', '    @property\n    def new_dims(self) -> tuple[Dim]:\n        if not getattr(self, "_new_dims", None):\n            self._new_dims = ()\n            for d in self.new_dims_func(**self.finalize_kwargs):\n                self._new_dims += (d,)\n        return self._new_dims\n', must_mention="half-built"),
+    V("twin: blueprint getter recomputed on every read", ("C13",), "", "aggregations.py", '    @cached_property\n    def new_dims(self) -> tuple[Dim]:\n        return self.new_dims_func(**self.finalize_kwargs)\n', '    @property\n    def new_dims(self) -> tuple[Dim]:\n        return self.new_dims_func(**self.finalize_kwargs)\n', expect="silent"),
     V("dtype promotion memoised with an untyped key", ("C14",), "R-MEMO", "xrdtypes.py", '        dtype = np.result_type(dtype, fill_value)\n    return dtype\n',
       '        dtype = _promote_for_fill_value(dtype, fill_value)\n    return dtype\n\n\n@functools.lru_cache\ndef _promote_for_fill_value(dtype: np.dtype, fill_value) -> np.dtype:\n    return np.result_type(dtype, fill_value)\n', must_mention="typed"),
     V("twin: dtype promotion memoised with typed=True", ("C14",), "", "xrdtypes.py", '        dtype = np.result_type(dtype, fill_value)\n    return dtype\n',
